@@ -314,8 +314,26 @@ func (e *Exec) convert(v Value, from, to types.Type) Value {
 		}
 		if isString(to) && fw > 0 {
 			// string(rune)
-			r := e.concretizeRune(x, from)
-			return e.strConst(string(rune(r)))
+			if x.IsConst() {
+				return e.strConst(string(rune(e.concretizeRune(x, from))))
+			}
+			var r32 *sym.Term
+			switch {
+			case x.W == 32:
+				r32 = x
+			case x.W < 32 && isSigned(from):
+				r32 = e.tb.SExt(x, 32)
+			case x.W < 32:
+				r32 = e.tb.ZExt(x, 32)
+			default:
+				// wider than 32 bits: out-of-range values become U+FFFD
+				inRange := e.tb.ULe(x, e.tb.Const(x.W, 0x10FFFF))
+				if !e.branch(inRange) {
+					return e.strConst("\uFFFD")
+				}
+				r32 = e.tb.Extract(x, 31, 0)
+			}
+			return Str{e.encodeRune(r32)}
 		}
 		if isFloat(to) {
 			if !x.IsConst() {
